@@ -598,6 +598,10 @@ func probeConv(f []string) string {
 				hasTLS = true
 				continue
 			}
+			if s == "TO" {
+				conn.in = append(conn.in, []byte{}) // the read deadline expires at this point of the (plaintext) stream
+				continue
+			}
 			if hasTLS {
 				tlsSegs = append(tlsSegs, unhx(s))
 			} else {
